@@ -2353,6 +2353,16 @@ class FuncLambda(ValueFunc):
                     if e.pos is None:
                         e.pos = getattr(self.defValues[i], "pos", None)
                     raise
+                if isinstance(value, ValueControlReturn):
+                    return value.value  # a return in the default value
+                elif isinstance(value, (ValueControlBreak,
+                                        ValueControlContinue)):
+                    raise CklRuntimeError(
+                        ValueString("ERROR"),
+                        "Cannot use " + value.type() +
+                        " without surrounding loop",
+                        value.pos,
+                    )
                 env.put(self.argNames[i], value)
             else:
                 raise CklRuntimeError(
@@ -3713,6 +3723,8 @@ class FuncS(ValueFunc):
                     pos,
                 )
             value = node.evaluate(environment)
+            if value.isReturn() or value.isBreak() or value.isContinue():
+                return value    # an exit reached inside the placeholder
             numeric = value.isNumerical() or base != 10 or digits != -1
             value = value.asString().value
             try:
